@@ -108,6 +108,18 @@ def isSpace (c : Char) : Bool :=
 def trimSpace (s : String) : String :=
   String.ofList ((s.toList.dropWhile isSpace).reverse.dropWhile isSpace).reverse
 
+/-- `httpguts.IsTokenRune` / `validHeaderFieldByte`: the characters of an HTTP token -/
+def isTokenChar (c : Char) : Bool :=
+  c.isAlphanum || "!#$%&'*+-.^_`|~".toList.contains c
+
+/-- `textproto.CanonicalMIMEHeaderKey`: first letter and every letter after a `-` in upper case, the others in lower
+case; a name that is no HTTP token is left as it is -/
+def canonicalKey (name : String) : String :=
+  let rec go (upper : Bool) : List Char → List Char
+    | [] => []
+    | c :: cs => (if upper then c.toUpper else c.toLower) :: go (c == '-') cs
+  if name.toList.all isTokenChar then String.ofList (go true name.toList) else name
+
 /-! ## requests -/
 
 /-- a value of the decoded request body (`map[string]any` of the JSON / form decoder) -/
@@ -132,7 +144,9 @@ deriving DecidableEq, Repr, Inhabited
 
 /-- what the extractors can see of a request -/
 structure Req where
-  /-- header lines in order (canonical names; a name may occur several times) -/
+  /-- `req.Host` -/
+  host : String := ""
+  /-- header lines in order (names in any spelling; a name may occur several times) -/
   headers : List (String × String) := []
   /-- decoded query parameters in order -/
   query : List (String × String) := []
@@ -141,9 +155,12 @@ structure Req where
   body : Body := .none
 deriving DecidableEq, Repr, Inhabited
 
-/-- `Request().Header(name)`: all values of the header joined by `,` -/
+/-- `Request().Header(name)`: header names are compared in canonical form, `Host` is the host of the request, all
+values of the header are joined by `,` -/
 def Req.header (r : Req) (name : String) : String :=
-  ",".intercalate ((r.headers.filter (fun p => p.1 == name)).map (·.2))
+  let key := canonicalKey name
+  if key == "Host" then r.host
+  else ",".intercalate ((r.headers.filter (fun p => canonicalKey p.1 == key)).map (·.2))
 
 /-- the first value stored under `name`, `""` if there is none (`url.Values.Get`, `http.Request.Cookie`) -/
 def firstValue (l : List (String × String)) (name : String) : String :=
@@ -236,11 +253,19 @@ structure FileFacts where
   loose : List Elem
 deriving DecidableEq, Repr
 
-/-- What the property needs of an authenticator's source file: its `Execute` constructs exactly the expected error
-values in the expected order, and *whatever* the rest of the file constructs — any number of expressions in any
-order, so unrelated edits of the verification helpers do not disturb the tie — writes no argument error. -/
+/-- What the property needs of an authenticator's source file:
+* the first error value `Execute` constructs with a run-time cause is the model's "no credentials" value (the
+  extractor's error attached to an authentication error) — if the model has one for this authenticator;
+* the error values of `Execute` into which an argument error is written are exactly the model's, in order
+  (`jwt`: the parse failure; all others: none);
+* *whatever else* `Execute` and the rest of the file construct — any number of expressions in any order, so
+  argument-free guards and unrelated edits of the verification helpers do not disturb the tie — writes no argument
+  error. -/
 def FileFacts.authenticatorOk (f : FileFacts) (entry : List Shape) : Bool :=
-  f.entry == entry && f.others.all Shape.argFree && f.loose.isEmpty
+  (f.entry.find? (·.contains .dyn)) == (entry.find? (·.contains .dyn)) &&
+  f.entry.filter (fun s => !s.argFree) == entry.filter (fun s => !s.argFree) &&
+  (entry.isEmpty || !f.entry.isEmpty) &&
+  f.others.all Shape.argFree && f.loose.isEmpty
 
 /-- What the property needs of an extractor's source file: every error it constructs is exactly the argument error
 (any number of them), and there is at least one. -/
@@ -389,6 +414,34 @@ deriving DecidableEq, Repr
 
 def compositeGuard : Guard := ⟨true, true, 0⟩
 
+/-! ## what a JWT is -/
+
+/-- the signature algorithms of `supportedAlgorithms()` (`supported_algorithms.go`) -/
+inductive Alg where
+  | ES256 | ES384 | ES512 | EdDSA | PS256 | PS384 | PS512 | RS256 | RS384 | RS512 | HS256 | HS384 | HS512
+deriving DecidableEq, Repr, Inhabited
+
+def supportedAlgs : List Alg :=
+  [.ES256, .ES384, .ES512, .EdDSA, .PS256, .PS384, .PS512, .RS256, .RS384, .RS512, .HS256, .HS384, .HS512]
+
+/-- `base64.RawURLEncoding.DecodeString` succeeds: URL-safe alphabet, no padding, no dangling character -/
+def isB64url (s : List Char) : Bool :=
+  s.all (fun c => c.isAlphanum || c == '-' || c == '_') && s.length % 4 != 1
+
+/-- `strings.Split(s, ".")` -/
+def splitDots : List Char → List (List Char)
+  | [] => [[]]
+  | c :: cs =>
+    match splitDots cs with
+    | [] => [[c]]
+    | p :: ps => if c == '.' then [] :: p :: ps else (c :: p) :: ps
+
+/-- the string has the form of a JWS compact serialisation: three base64url parts separated by dots -/
+def isCompactJWS (tok : String) : Bool :=
+  match splitDots tok.toList with
+  | [h, p, s] => isB64url h && isB64url p && isB64url s
+  | _ => false
+
 /-! ## the world outside heimdall -/
 
 /-- what the check of a credential that was found says -/
@@ -404,8 +457,9 @@ deriving Repr, Inhabited
 structure World where
   /-- Basic credentials: the base64 text ↦ the decoded text split at `:` -/
   basic : List (String × List String) := []
-  /-- the strings `jwt.ParseSigned` accepts -/
-  parses : List String := []
+  /-- the signature algorithm named by the (decodable, JSON) protected header of a string of compact JWS form;
+  absent: the header is no JSON object or names no signature algorithm go-jose knows (e.g. `none`) -/
+  headerAlg : List (String × Alg) := []
   jwt : List ((String × String) × Verdict JwtSite) := []
   intro : List ((String × String) × Verdict IntroSite) := []
   gen : List ((String × String) × Verdict GenSite) := []
@@ -413,6 +467,13 @@ deriving Repr, Inhabited
 
 def lookup {β : Type} (l : List ((String × String) × β)) (id tok : String) : Option β :=
   (l.find? (fun p => p.1.1 == id && p.1.2 == tok)).map (·.2)
+
+/-- `jwt.ParseSigned(tok, supportedAlgorithms())` succeeds: compact JWS form and a supported signature algorithm -/
+def World.parsesJWT (w : World) (tok : String) : Bool :=
+  isCompactJWS tok &&
+  match w.headerAlg.find? (fun p => p.1 == tok) with
+  | some p => supportedAlgs.contains p.2
+  | none => false
 
 def World.basicDecode (w : World) (data : String) : Option (List String) :=
   (w.basic.find? (fun p => p.1 == data)).map (·.2)
@@ -457,8 +518,8 @@ deriving DecidableEq, Repr, Inhabited
 structure Authn where
   id : String
   typ : Typ
-  /-- `allow_fallback_on_error` of the mechanism definition -/
-  allowFallback : Bool := false
+  /-- `allow_fallback_on_error` of the mechanism definition, if it is given there -/
+  allowFallback : Option Bool := none
   /-- `allow_fallback_on_error` given in the rule's step configuration, if any (`WithConfig`) -/
   override : Option Bool := none
   /-- the name under which the world knows this authenticator *as configured in this step*: the mechanism id,
@@ -471,7 +532,7 @@ def Authn.fallback (a : Authn) : Bool :=
   match a.typ with
   | .anonymous _ => false
   | .unauthorized => false
-  | _ => a.override.getD a.allowFallback
+  | _ => a.override.getD (a.allowFallback.getD false)
 
 /-- the default sources of the `jwt` and `oauth2_introspection` authenticators -/
 def defaultSources : List Strategy :=
@@ -515,7 +576,7 @@ def Authn.execute (w : World) (a : Authn) (r : Req) : Except Err String :=
     match extract ss r with
     | .error e => .error (JwtSite.noToken.shape.build e)
     | .ok tok =>
-      if w.parses.contains tok then (w.jwtVerdict a.key tok).outcome JwtSite.shape
+      if w.parsesJWT tok then (w.jwtVerdict a.key tok).outcome JwtSite.shape
       else .error (JwtSite.parse.shape.build .foreign)
   | .introspection ss =>
     match extract ss r with
